@@ -633,6 +633,7 @@ class SimProcess(_L2):
     target = "mosaik.scheduler.sim_process"
     loop_modifies = {1: ["P"]}
     propagates_connection_error = False   # it must turn a lost connection into a SimulationError
+    property_ids = _L2.property_ids + ["C14"]
 
     def make_args(self, mk):
         M = mk.s.sched
@@ -670,6 +671,9 @@ class SimProcess(_L2):
     def native_search(self, budget):
         for cs in ([0], [0, 0], [0, 4], [0, 5], [0, 0, 0], [0, 5, 0], [0, 0, 5], [0, 4, 4], [1, 6, 0, 0]):
             yield {"native_case": {"current_step": cs, "max_loop_iterations": 5}}
+        for where in ("step", "get_data"):
+            for err in ("ConnectionResetError", "BrokenPipeError", "ConnectionError", "ConnectionAbortedError"):
+                yield {"native_case": {"connection_lost_in": where, "error": err}}
 
     def site_condition(self, site, e):
         """C09: the guard fires exactly when some sub-step tier of the step has reached the bound"""
